@@ -93,6 +93,20 @@ def obs_state(tr) -> Dict[str, Any]:
             "sess_exec": sim.current_session.with_order_execution if sim.current_session is not None else None}
 
 
+def index_obs(tr) -> Dict[str, Any]:
+    """explicit-time queries of every index market for the CURRENT step (option index_queries): what it answers now, next to
+    what its components report now"""
+    if not tr.options.get("index_queries"):
+        return {}
+    out = []
+    for m in tr.sim.markets:
+        if isinstance(m, IndexMarket):
+            t = m.get_time()
+            out.append((m.market_id, t, m.get_index(t), m.get_market_index(time=t),
+                        [(c.get_market_price(t), c.outstanding_shares) for c in m.get_components()]))
+    return {"idxq": out}
+
+
 def order_fields(o: Order) -> Dict[str, Any]:
     return {"agent_id": o.agent_id, "market_id": o.market_id, "is_buy": o.is_buy, "kind": o.kind.name, "volume": o.volume,
             "price": o.price, "ttl": o.ttl, "order_id": o.order_id, "placed_at": o.placed_at}
@@ -400,6 +414,7 @@ class VProbeEvent(EventABC):
         if tr.options.get("fundamentals"):
             kw["fund"] = [m.get_fundamental_price() for m in simulator.markets]
             kw["shares"] = [m.outstanding_shares for m in simulator.markets]
+        kw.update(index_obs(tr))
         self._r("market_before", market=market.market_id, **kw)
         rs = getattr(self, "reshare", None)
         if rs and market is simulator.markets[0] and market.get_time() == rs["at"]:
@@ -418,7 +433,7 @@ class VProbeEvent(EventABC):
             probe_series(tr, market)
 
     def hooked_after_step_for_market(self, simulator, market):
-        self._r("market_after", market=market.market_id)
+        self._r("market_after", market=market.market_id, **index_obs(T()))
         tr = T()
         if tr.options.get("probe_series"):
             # the values of the current time are final once the step is over: compare the past with the last snapshot,
